@@ -77,6 +77,43 @@ b("B13", FOREIGN, None, None, "check_ttl called through a thin local wrapper in 
 # 14. status test written as matches!
 b("B14", "libwallet/src/types.rs", None, None, "eligible_to_spend: == replaced by matches!")
 
+# ---- second batch
+TYPES = "libwallet/src/types.rs"
+# 15. two independent proof comparisons swapped
+b("B15", TX,
+  "\t\tif p.sender_address != orig_sender_address.to_ed25519()? {\n\t\t\treturn Err(Error::PaymentProof(\n\t\t\t\t\"Sender address on slate does not match original sender address\".to_owned(),\n\t\t\t));\n\t\t}\n\n\t\tif orig_proof_info.receiver_address != p.receiver_address {\n\t\t\treturn Err(Error::PaymentProof(\n\t\t\t\t\"Recipient address on slate does not match original recipient address\".to_owned(),\n\t\t\t));\n\t\t}\n",
+  "\t\tif orig_proof_info.receiver_address != p.receiver_address {\n\t\t\treturn Err(Error::PaymentProof(\n\t\t\t\t\"Recipient address on slate does not match original recipient address\".to_owned(),\n\t\t\t));\n\t\t}\n\n\t\tif p.sender_address != orig_sender_address.to_ed25519()? {\n\t\t\treturn Err(Error::PaymentProof(\n\t\t\t\t\"Sender address on slate does not match original sender address\".to_owned(),\n\t\t\t));\n\t\t}\n",
+  "sender / receiver address comparisons swapped")
+# 16. mark_reverted as if instead of match
+b("B16", TYPES,
+  "\t\tmatch self.status {\n\t\t\tOutputStatus::Unspent => self.status = OutputStatus::Reverted,\n\t\t\t_ => (),\n\t\t}",
+  "\t\tif self.status == OutputStatus::Unspent {\n\t\t\tself.status = OutputStatus::Reverted;\n\t\t}",
+  "match with one arm rewritten as if")
+# 17. next_child: the incremented index in its own local
+b("B17", LMDB,
+  "\t\tderiv_idx += 1;\n\t\tlet mut batch = self.batch(keychain_mask)?;\n\t\tbatch.save_child_index(&parent_key_id, deriv_idx)?;",
+  "\t\tlet next_idx = deriv_idx + 1;\n\t\tlet mut batch = self.batch(keychain_mask)?;\n\t\tbatch.save_child_index(&parent_key_id, next_idx)?;",
+  "incremented index bound to a new local")
+# 18. XOR loop variable renamed, loop split in two
+b("B18", LMDB,
+  "\t\tlet mut s_ctx = ctx.clone();\n\t\tfor i in 0..SECRET_KEY_SIZE {\n\t\t\ts_ctx.sec_key.0[i] ^= blind_xor_key[i];\n\t\t\ts_ctx.sec_nonce.0[i] ^= nonce_xor_key[i];\n\t\t}",
+  "\t\tlet mut s_ctx = ctx.clone();\n\t\tfor n in 0..SECRET_KEY_SIZE {\n\t\t\ts_ctx.sec_key.0[n] ^= blind_xor_key[n];\n\t\t}\n\t\tfor n in 0..SECRET_KEY_SIZE {\n\t\t\ts_ctx.sec_nonce.0[n] ^= nonce_xor_key[n];\n\t\t}",
+  "masking loop split in two")
+# 19. rollback loop variable renamed and the two ifs turned into if / else if
+b("B19", UPD,
+  "\tfor mut o in outputs {\n\t\t// unlock locked outputs\n\t\tif o.status == OutputStatus::Unconfirmed || o.status == OutputStatus::Reverted {\n\t\t\tbatch.delete(&o.key_id, &o.mmr_index)?;\n\t\t}\n\t\tif o.status == OutputStatus::Locked {\n\t\t\to.status = OutputStatus::Unspent;\n\t\t\tbatch.save(o)?;\n\t\t}\n\t}",
+  "\tfor mut out in outputs {\n\t\t// unlock locked outputs\n\t\tif out.status == OutputStatus::Unconfirmed || out.status == OutputStatus::Reverted {\n\t\t\tbatch.delete(&out.key_id, &out.mmr_index)?;\n\t\t} else if out.status == OutputStatus::Locked {\n\t\t\tout.status = OutputStatus::Unspent;\n\t\t\tbatch.save(out)?;\n\t\t}\n\t}",
+  "rollback loop: variable renamed, second if becomes else-if")
+# 20. check_ttl with an early return for 'no ttl'
+b("B20", OWNER,
+  "\tlet last_confirmed_height = w.last_confirmed_height()?;\n\tif slate.ttl_cutoff_height != 0 {\n\t\tif last_confirmed_height >= slate.ttl_cutoff_height {\n\t\t\treturn Err(Error::TransactionExpired);\n\t\t}\n\t}\n\tOk(())",
+  "\tif slate.ttl_cutoff_height == 0 {\n\t\treturn Ok(());\n\t}\n\tlet last_confirmed_height = w.last_confirmed_height()?;\n\tif last_confirmed_height >= slate.ttl_cutoff_height {\n\t\treturn Err(Error::TransactionExpired);\n\t}\n\tOk(())",
+  "early return for slates without a ttl")
+# 21. rename the snapshot variable of update_wallet_state's callers: whole-file rename in owner.rs of `tx_vec`? (kept small)
+b("B21", TX, None, None, "rename tx_vec -> entries in tx.rs (whole file)")
+# 22. Owner API method binds the mask to a local first
+b("B22", "api/src/owner.rs", None, None, "Owner::cancel_tx binds keychain_mask to a local before use")
+
 
 def _apply(mu, repo_copy):
     p = os.path.join(repo_copy, mu["file"])
@@ -96,6 +133,14 @@ def _apply(mu, repo_copy):
             return "anchor text occurs %d times" % src.count(old)
         src = src.replace(old, "\trefuse_expired(w, &sl)?;")
         src += "\nfn refuse_expired<'a, T: ?Sized, C, K>(w: &mut T, slate: &Slate) -> Result<(), Error>\nwhere\n\tT: WalletBackend<'a, C, K>,\n\tC: NodeClient + 'a,\n\tK: Keychain + 'a,\n{\n\tcheck_ttl(w, slate)?;\n\tOk(())\n}\n"
+    elif bid == "B21":
+        assert src.count("tx_vec") >= 4
+        src = src.replace("tx_vec", "entries")
+    elif bid == "B22":
+        old = "\t\towner::cancel_tx(\n\t\t\tself.wallet_inst.clone(),\n\t\t\tkeychain_mask,"
+        if src.count(old) != 1:
+            return "anchor text occurs %d times" % src.count(old)
+        src = src.replace(old, "\t\tlet mask = keychain_mask;\n\t\towner::cancel_tx(\n\t\t\tself.wallet_inst.clone(),\n\t\t\tmask,")
     elif bid == "B14":
         old = "self.status == OutputStatus::Unspent"
         if src.count(old) < 1:
@@ -136,16 +181,18 @@ def run(ids=None, props=None):
                 continue
             alarms = []
             compile_fail = False
-            for p in props:
-                env = dict(os.environ, GW_REPO=repo_copy, GW_MUTANT_RUN="1")
-                r = subprocess.run([sys.executable, os.path.join(facts.VERIF, "bin", "check"), p, "--tier", "quick"], env=env, capture_output=True, text=True)
-                for l in r.stdout.splitlines():
-                    if l.startswith("MUTANT-FINDING ") or l.startswith("MUTANT-ERROR "):
-                        if "facts extraction failed" in l:
-                            compile_fail = True
-                        alarms.append(p + ": " + l[:260])
-                if compile_fail:
-                    break
+            env = dict(os.environ, GW_REPO=repo_copy, GW_MUTANT_RUN="1")
+            r = subprocess.run([sys.executable, os.path.join(facts.VERIF, "bin", "check_all")] + list(props), env=env, capture_output=True, text=True)
+            cur = "?"
+            for l in r.stdout.splitlines():
+                if l.startswith("== "):
+                    cur = l[3:].strip()
+                elif l.startswith("MUTANT-FINDING ") or l.startswith("MUTANT-ERROR "):
+                    if "facts extraction failed" in l:
+                        compile_fail = True
+                    alarms.append(cur + ": " + l[:260])
+            if r.returncode not in (0, 1):
+                alarms.append("check_all crashed: " + r.stderr[-300:])
             status = "does-not-compile" if compile_fail else ("FALSE-ALARM" if alarms else "silent")
             print("benign %s (%s): %s [%.0fs]" % (mu["id"], mu["note"], status, time.time() - t0))
             for a in alarms[:8]:
